@@ -99,12 +99,13 @@ func TestVerifC11(t *testing.T) {
 		L = 5
 	}
 	distinct := map[string]string{} // sanitiser output -> one input producing it
+	noRep := false // long strings take part in the builders through a few representatives only
 	emit := func(s string) {
 		out := StorageKeys.Safe(s)
 		out2 := StorageKeys.Safe(out)
 		lm, sp := c11Tables(s)
 		o.Line("safe %s %s %s => %s %s", hexRunes(s), lm, sp, hexRunes(out), hexRunes(out2))
-		if _, ok := distinct[out]; !ok {
+		if _, ok := distinct[out]; !ok && !noRep {
 			distinct[out] = s
 		}
 	}
@@ -160,6 +161,28 @@ func TestVerifC11(t *testing.T) {
 		}
 		emit(string(rs))
 	}
+	// (3b) the length dimension: strings at and around the lengths where a length limit would sit
+	// (DNS label 63, DNS name 253, file-name component 255, powers of two up to 4 KiB), filled
+	// with harmless characters and carrying, at the head or at the tail, characters that the
+	// sanitiser expands, deletes or joins — a cut before or after those steps shows there
+	nlong := 0
+	for _, lim := range []int{63, 64, 127, 128, 253, 255, 256, 511, 512, 1024, 4096} {
+		for d := -2; d <= 2; d++ {
+			for _, pat := range []string{"*+*+*", "....", " a ", "::", ".*.", "A+", "é*"} {
+				n := lim + d - len(pat)
+				if n < 0 {
+					continue
+				}
+				fill := strings.Repeat("a", n)
+				noRep = !(d == 1 && lim == 255 && (pat == "*+*+*" || pat == "...."))
+				emit(fill + pat)
+				emit(pat + fill)
+				noRep = false
+				nlong += 2
+			}
+		}
+	}
+	o.Stat("long_strings", nlong)
 	o.Stat("distinct_safe_outputs", len(distinct))
 
 	// (4) builders, in every position, over representatives of distinct sanitiser outputs
